@@ -5,7 +5,7 @@ use std::collections::{BTreeMap, BTreeSet};
 
 #[derive(Clone, Debug, PartialEq)]
 pub enum SR {
-    Metric { kind: MK, field: Fd, count: u64, sum: i128, sumsq: i128, min: Option<i64>, max: Option<i64>, sorted: Vec<i64>, distinct: usize },
+    Metric { kind: MK, field: Fd, count: u64, sum: i128, sumsq: i128, min: Option<i64>, max: Option<i64>, sorted: Vec<i64>, distinct: usize, sigma: f64 },
     Hits(Vec<i64>),
     /// `all`: every bucket that passes `min_doc_count`, in request order (count ties broken by
     /// ascending key); the result shows the first `size`
@@ -97,7 +97,7 @@ fn eval_one(n: &Node, docs: &[&MDoc], all_terms: &dyn Fn(Fd) -> Vec<i64>, sem: S
                 sumsq: if numeric { vals.iter().map(|&v| (v as i128) * (v as i128)).sum() } else { 0 },
                 min: if numeric { sorted.first().cloned() } else if vals.is_empty() { None } else { Some(0) },
                 max: if numeric { sorted.last().cloned() } else if vals.is_empty() { None } else { Some(0) },
-                sorted, distinct,
+                sorted, distinct, sigma: n.opt.sigma4.map(|s| s as f64 / 4.0).unwrap_or(2.0),
             }
         }
         Agg::Terms { field, size, seg, mdc, order, missing } => {
